@@ -20,7 +20,7 @@ import random
 
 import numpy as np
 
-from .. import core, geo
+from .. import argguard, core, geo
 
 INVS_ABS = ["TypeOK", "C20_GreedyValid", "C20_GreedyPrefixValid", "C20_GreedyIsFunctionOfOrder"]
 INVS_GEO = ["TypeOK", "C20_GreedyPrefixValid", "C20_GreedyIsFunctionOfOrder", "C20_GeoMotionInvariant",
@@ -47,13 +47,52 @@ def cfg_geo(tier):
 
 
 # ---- the calls under test ---------------------------------------------------------------------------------------
-def call_measure(points, normals, m1, m2, voxel, max_nm, max_deg, direction):
+FORMS = ["plain", "fortran", "view", "readonly", "f32", "plain"]
+
+
+def present(arr, form):
+    """The same values in another storage form (what a caller may legitimately hold): Fortran order, a non-contiguous
+    view into a wider array, a read-only array, single precision (the case's values are float32-exact then)."""
+    a = np.asarray(arr)
+    if form == "fortran" and a.ndim == 2:
+        return np.asfortranarray(a)
+    if form == "view":
+        if a.ndim == 2:
+            wide = np.zeros((a.shape[0], a.shape[1] + 2), dtype=a.dtype)
+            wide[:, 1:-1] = a
+            return wide[:, 1:-1]
+        wide = np.zeros(2 * a.shape[0], dtype=a.dtype)
+        wide[::2] = a
+        return wide[::2]
+    if form == "readonly":
+        b = a.copy()
+        b.setflags(write=False)
+        return b
+    if form == "f32" and a.dtype.kind == "f":
+        return a.astype(np.float32)
+    return a
+
+
+def call_measure(points, normals, m1, m2, voxel, max_nm, max_deg, direction, opts=0):
+    """opts bit 0: num_threads given; bit 1: a logger instead of print; bit 2: integer-valued scalars as Python ints."""
+    import logging
     from cryocat import memthick
+    kw = {}
+    if opts & 1:
+        kw["num_threads"] = 2
+    if opts & 2:
+        lg = logging.getLogger("c20-null")
+        lg.addHandler(logging.NullHandler())
+        lg.propagate = False
+        kw["logger"] = lg
+    if opts & 4:
+        voxel = int(voxel) if float(voxel).is_integer() else voxel
+        max_deg = int(max_deg) if float(max_deg).is_integer() else max_deg
     with contextlib.redirect_stdout(io.StringIO()):
         # the caller's own arrays are handed over (not copies) and re-used by the following calls: an implementation
         # that modifies its arguments, or keeps state between calls, shows up in the later calls of the same sheet
-        return memthick.measure_thickness_cpu(points, normals, m1, m2, voxel,
-                                              max_thickness_nm=max_nm, max_angle_degrees=max_deg, direction=direction)
+        return memthick.measure_thickness_cpu(points, normals, m1, m2, voxel, max_thickness_nm=max_nm,
+                                              max_angle_degrees=max_deg, direction=direction, **kw)
 
 
 def call_kernel(points, normals, m1, m2, voxel, max_nm, max_deg, direction, width):
@@ -86,7 +125,17 @@ def replay_geo(ctx, rec):
     case = {"kind": "geo", "rec": rec}
     sig = {"op": "measure_thickness_cpu", "layer": "L2", "dir": rec["dir"]}
     pts, nrm, m1, m2, vox, max_nm = geo_arrays(rec)
-    res, err = core.call_guarded(call_measure, pts, nrm, m1, m2, vox, max_nm, float(rec["deg"]), rec["dir"])
+    form = ["plain", "fortran", "view", "readonly"][int(core.stable_hash(rec), 16) % 4]
+    sig["form"] = form
+    pts, nrm, m1, m2 = present(pts, form), present(nrm, form), present(m1, form), present(m2, form)
+    guard = argguard.Guard(points=pts, normals=nrm, surface1_mask=m1, surface2_mask=m2)
+    res, err = core.call_guarded(call_measure, pts, nrm, m1, m2, vox, max_nm, float(rec["deg"]), rec["dir"],
+                                 int(core.stable_hash(rec), 16) // 4 % 8)
+    why = guard.changed() if err is None else None
+    if why:
+        ctx.ran(case)
+        ctx.fail("C20_ArgumentsUnchanged", "the call changed its argument (%s)" % why, case, sig)
+        return
     ctx.ran(case, nontrivial=rec["nadm"] >= 2)
     if err is not None:
         ctx.fail("call_raises", err, case, sig)
@@ -130,9 +179,11 @@ def gen_sheet_case(rng, idx, nmax):
     r = rng.random()
     n = rng.randint(20, 60) if r < 0.5 else (rng.randint(60, nmax) if r < 0.9 else nmax)
     deg = float(rng.randint(1, 30)) if rng.random() < 0.5 else round(rng.uniform(1.0, 30.0), 3)
-    return {"kind": "sheet", "id": idx, "n": n, "npseed": rng.randrange(2 ** 31),
+    case = {"kind": "sheet", "id": idx, "n": n, "npseed": rng.randrange(2 ** 31),
             "shape": rng.choice(["flat", "tilted", "curved", "saddle"]),
-            "h": round(rng.uniform(3.0, 9.0), 3), "deg": deg,
+            # sheet separation in voxel units: below one voxel, about one voxel, a few voxels, many voxels
+            "h": rng.choice([0.27, 0.6, 0.93, 1.04, 1.6, round(rng.uniform(3.0, 9.0), 3), round(rng.uniform(3.0, 9.0), 3),
+                             round(rng.uniform(3.0, 9.0), 3), 41.5]), "deg": deg,
             "lam": rng.choice([0.5, 1.5, 3.0, 5.0, 9.0]),
             "maxf": rng.choice([0.97, 1.08, 1.2, 1.5, 1.8]),
             "voxel": rng.choice([1.0, 0.5, 1.35, 2.62, round(rng.uniform(0.3, 4.0), 4)]),
@@ -141,7 +192,11 @@ def gen_sheet_case(rng, idx, nmax):
             "jitter": rng.choice([0.0, 0.02, 0.08]),
             "wrong": rng.choice([0.0, 0.05, 0.2]),
             "unlabelled": rng.choice([0, 0, 3]),
-            "factor": rng.choice([2.0, 0.5, 1.7, 10.0, round(rng.uniform(0.2, 5.0), 3)])}
+            "factor": rng.choice([2.0, 0.5, 1.7, 10.0, round(rng.uniform(0.2, 5.0), 3)]),
+            "form": FORMS[idx % len(FORMS)], "opts": rng.randrange(8), "kernel_first": rng.random() < 0.5}
+    if case["form"] == "f32" and case["h"] < 3:
+        case["h"] = round(rng.uniform(3.0, 9.0), 3)            # single precision cannot resolve sub-voxel sheets far from the origin
+    return case
 
 
 def rng_top(case):
@@ -155,6 +210,8 @@ def build_sheet(case):
     n0 = case["unlabelled"]
     n1 = int(round((n - n0) * case.get("frac1", 0.5))) + int(rs.randint(-2, 3))     # uneven labelling when frac1 != 0.5
     n1 = max(3, min(n - n0 - 3, n1))
+    if case.get("n1_exact"):
+        n1 = case["n1_exact"]                                  # block boundaries (256 / 257 sources), a single source
     n2 = n - n0 - n1
     rc = h * math.tan(math.radians(deg))                        # cone radius at the other sheet
     L = rc * math.sqrt(math.pi * max(n1, n2) / case["lam"])     # ~lam candidates per source
@@ -197,12 +254,20 @@ def build_sheet(case):
     off = rs.uniform(-50, 200, 3)
     pts = pts @ Q.T + off
     nrm = nrm @ Q.T
+    if case.get("coincide"):
+        # special value: a point of surface 2 placed exactly on a point of surface 1 (distance 0: never ahead)
+        i1, i2 = np.where(surf == 1)[0], np.where(surf == 2)[0]
+        pts[i2[0]] = pts[i1[0]]
     Q2 = geo.random_rotation_matrix(random.Random(case["npseed"] + 2))
     off2 = rs.uniform(-300, 300, 3)
+    if case.get("form") == "f32":
+        # single-precision inputs: the case IS the float32 values (relations are computed from exactly these)
+        pts = pts.astype(np.float32).astype(np.float64)
+        nrm = nrm.astype(np.float32).astype(np.float64)
     return {"pts": pts, "nrm": nrm, "surf": surf, "max_vox": h * case["maxf"], "Q": Q2, "t": off2}
 
 
-def relation(pts, nrm, surf, direction, max_vox, deg):
+def relation(pts, nrm, surf, direction, max_vox, deg, REL=REL):
     """Brute force over all (source, target) pairs, TANGENT criterion.  Returns None when some pair is a near tie,
     else dict with sorted admissible list [(s, t, dist)] (0-based), the full distance matrix pieces for flags."""
     sl, tl = (1, 2) if direction == "1to2" else (2, 1)
@@ -225,8 +290,8 @@ def relation(pts, nrm, surf, direction, max_vox, deg):
         return None
     if np.any(inrange & (np.abs(proj) < REL * dist)):
         return None
-    if np.any(dist < 1e-9):
-        return None
+    if np.any((dist < 1e-9) & (dist > 0)):
+        return None                                            # (exactly coincident points are a decided case: not ahead)
     ok = inrange & fwd & cone
     ii, jj = np.where(ok)
     adm = sorted((float(dist[i, j]), int(S[i]), int(Tt[j])) for i, j in zip(ii, jj))
@@ -276,7 +341,8 @@ def prepare_sheet(ctx, case):
     b = build_sheet(case)
     pts, nrm, surf = b["pts"], b["nrm"], b["surf"]
     deg, d0, max_vox = case["deg"], case["dir"], b["max_vox"]
-    rel = {d: relation(pts, nrm, surf, d, max_vox, deg) for d in ("1to2", "2to1")}
+    tol = 2e-5 if case.get("form") == "f32" else REL          # single-precision arithmetic inside the call
+    rel = {d: relation(pts, nrm, surf, d, max_vox, deg, tol) for d in ("1to2", "2to1")}
     if rel["1to2"] is None or rel["2to1"] is None:
         ctx.discard("near tie (range / cone / forward boundary, or equal distances of two pairs sharing a point)")
         return None
@@ -285,7 +351,9 @@ def prepare_sheet(ctx, case):
         return None
     pm = pts @ b["Q"].T + b["t"]
     nm = nrm @ b["Q"].T
-    relm = relation(pm, nm, surf, d0, max_vox, deg)
+    if case.get("form") == "f32":
+        pm, nm = pm.astype(np.float32).astype(np.float64), nm.astype(np.float32).astype(np.float64)
+    relm = relation(pm, nm, surf, d0, max_vox, deg, tol)
     if relm is None or sorted((s, t) for s, t, _ in relm["adm"]) != sorted((s, t) for s, t, _ in rel[d0]["adm"]):
         ctx.discard("relation not stable under the rigid motion (near tie)")
         return None
@@ -313,41 +381,68 @@ def run_sheets(ctx, cases, corrupt=None, retry=True):
         max_vox = b["max_vox"]
         max_nm = max_vox * voxel
         rank = {d: {(s, t): k + 1 for k, (s, t, _) in enumerate(rel[d]["adm"])} for d in rel}
-        m1, m2 = surf == 1, surf == 2
+        form = case.get("form", "plain")
+        opts = case.get("opts", 0)
+        # the caller's arrays in the case's storage form; the SAME objects go into every call of the sheet
+        A_pts, A_nrm = present(pts, form), present(nrm, form)
+        A_pm, A_nm = present(pm, form), present(nm, form)
+        mform = form if form in ("view", "readonly") else "plain"
+        m1, m2 = present(surf == 1, mform), present(surf == 2, mform)
         f = case["factor"]
-        sig = {"op": "measure_thickness_cpu", "layer": "L3"}
+        sig = {"op": "measure_thickness_cpu", "layer": "L3", "form": form}
         events = []
-        calls = [("base", d0, (pts, nrm, m1, m2, voxel, max_nm, deg, d0)),
-                 ("moved", d0, (pm, nm, m1, m2, voxel, max_nm, deg, d0)),
-                 ("scaled", d0, (pts, nrm, m1, m2, voxel * f, max_nm * f, deg, d0)),
-                 ("swap", d1, (pts, nrm, m1, m2, voxel, max_nm, deg, d1)),
-                 ("relabel", d1, (pts, nrm, m2, m1, voxel, max_nm, deg, d0))]
+        calls = [("base", d0, (A_pts, A_nrm, m1, m2, voxel, max_nm, deg, d0, opts)),
+                 ("moved", d0, (A_pm, A_nm, m1, m2, voxel, max_nm, deg, d0, opts)),
+                 ("scaled", d0, (A_pts, A_nrm, m1, m2, voxel * f, max_nm * f, deg, d0, opts ^ 3)),
+                 ("swap", d1, (A_pts, A_nrm, m1, m2, voxel, max_nm, deg, d1, opts)),
+                 ("relabel", d1, (A_pts, A_nrm, m2, m1, voxel, max_nm, deg, d0, opts ^ 1))]
+        # the same physical sheets at another voxel size: coordinates / f, voxel size * f, the same maximum in nm
+        pr = pts / f
+        relr = relation(pr, nrm, surf, d0, max_vox / f, deg, 2e-5 if form == "f32" else REL)
+        if relr is not None and form != "f32" and \
+                sorted((a, b) for a, b, _ in relr["adm"]) == sorted((a, b) for a, b, _ in rel[d0]["adm"]):
+            calls.append(("revoxel", d0, (present(pr, form), A_nrm, m1, m2, voxel * f, max_nm, deg, d0, opts)))
+        kres = kerr = None
+        if case.get("kernel_first"):
+            # call-history independence: the candidate kernel runs before the CPU calls for half of the sheets
+            kres, kerr = core.call_guarded(call_kernel, pts, nrm, surf == 1, surf == 2, voxel, max_nm, deg, d0, 32)
         failed = False
         base_th = None
         base_res = None
         for kind, eff, args in calls:
             if corrupt == "swap_call" and kind == "base":
-                args = args[:7] + (d1,)                         # binding demonstration: wrong API call
+                args = args[:7] + (d1,) + args[8:]              # binding demonstration: wrong API call
+            guard = argguard.Guard(points=args[0], normals=args[1], surface1_mask=args[2], surface2_mask=args[3])
             res, err = core.call_guarded(call_measure, *args)
+            why = guard.changed() if err is None else None
+            if why:
+                # the pairing is defined against the arrays the caller holds; a call that rewrites them answers about
+                # other points (and poisons every later use of the arrays)
+                ctx.fail("C20_ArgumentsUnchanged", "%s call changed its argument (%s)" % (kind, why), case, dict(sig, kind=kind))
+                failed = True
+                break
             if err is not None:
                 ctx.fail("call_raises", "%s: %s" % (kind, err), case, dict(sig, kind=kind))
                 failed = True
                 break
-            P, Nn = (pm, nm) if kind == "moved" else (pts, nrm)
-            vx = voxel * f if kind == "scaled" else voxel
+            P, Nn = (pm, nm) if kind == "moved" else ((pr, nrm) if kind == "revoxel" else (pts, nrm))
+            vx = voxel * f if kind in ("scaled", "revoxel") else voxel
             mx = max_nm * f if kind == "scaled" else max_nm
             if kind == "base":
                 base_th = np.asarray(res[0], dtype=float).copy()
                 base_res = res
             refth = base_th * f if (kind == "scaled" and base_th is not None and len(base_th) == n) else None
-            ref = {"base": 0, "moved": 1, "scaled": 1, "swap": 0, "relabel": 4}[kind]
-            events.append(measurement_event(kind, eff, res, n, P, Nn, rank[eff], max_vox, deg, vx, mx, ref, refth))
+            ref = {"base": 0, "moved": 1, "scaled": 1, "swap": 0, "relabel": 4, "revoxel": 1}[kind]
+            events.append(measurement_event(kind, eff, res, n, P, Nn, rank[eff], max_vox / f if kind == "revoxel" else max_vox,
+                                            deg, vx, mx, ref, refth))
         if failed:
             ctx.ran(case)
             continue
         # numba candidate kernel on the base input
         width = 32
-        kres, err = core.call_guarded(call_kernel, pts, nrm, m1, m2, voxel, max_nm, deg, d0, width)
+        err = kerr
+        if kres is None and kerr is None:
+            kres, err = core.call_guarded(call_kernel, pts, nrm, surf == 1, surf == 2, voxel, max_nm, deg, d0, width)
         if err is not None:
             ctx.fail("call_raises", "kernel: %s" % err, case, {"op": "find_matches_parallel", "layer": "L3"})
             ctx.ran(case)
@@ -418,6 +513,9 @@ def run(ctx):
         "cases with a near tie (1e-6 relative: range, cone or forward boundary, equal distances of two admissible pairs that share a point) are discarded",
         "fewer than 25 admissible targets per source (property quantifier; TLC shows the guarantee is lost when the cap binds)",
         "thickness is stored as float32: 1e-4 relative tolerance in traces, 1e-5 on the lattice",
+        "storage forms: C / Fortran / non-contiguous view / read-only float64 and float32 arrays (for float32 the case is "
+        "the float32 values and the near-tie margin is 2e-5); bool masks as plain / view / read-only arrays",
+        "the caller's arrays must be unchanged after every call (argguard) - clause C20_ArgumentsUnchanged",
         "the CUDA twin find_all_possible_matches_kernel is not executable here and is not checked"]
     only = getattr(ctx, "only", None)
 
@@ -464,6 +562,13 @@ def run(ctx):
                 cases[0].update(n=600, frac1=0.55, lam=3.0, maxf=1.5, unlabelled=0, wrong=0.0)
                 cases[1].update(n=600, frac1=0.45, lam=2.0, maxf=1.2, unlabelled=3, wrong=0.05)
                 cases[2].update(n=rng_top(cases[2]), frac1=0.6, lam=1.5, maxf=1.5)
+                # block boundaries of the source list (exactly 256 / 257 sources), a single source point, a point of one
+                # surface lying exactly on a point of the other
+                cases[3].update(n=560, n1_exact=256, lam=2.0, maxf=1.5, unlabelled=0, dir="1to2")
+                cases[4].update(n=560, n1_exact=257, lam=2.0, maxf=1.5, unlabelled=3, dir="1to2")
+                cases[5].update(n=40, n1_exact=1, lam=3.0, maxf=1.5, unlabelled=0, wrong=0.0)
+                cases[6].update(coincide=True)
+                cases[7].update(coincide=True, n=30)
             # binding demonstration (self-test only): VERIF_C20_CORRUPT=field|swap_call corrupts one recorded field /
             # swaps the direction flag of the base call in the first batch - the check must then report violations
             run_sheets(ctx, cases, corrupt=(os.environ.get("VERIF_C20_CORRUPT") or None) if done == 0 else None)
